@@ -80,4 +80,6 @@ class FileSystemArtifactStore(SerializedArtifactStore):
             raise ArtifactFileDoesNotExist(f'Artifact file for {node_id} does not exist')
 
         with Path(glob[0]).open('rb') as file:  # noqa: ASYNC101
-            return serializer_factory.from_extension(glob[0].suffix[1:]).load(file)
+            # The file is named `<node_id>.<format>`. `Path.suffix` is empty for a name that is only `.<format>`
+            # (an empty node_id makes it a dot-file), so the format is taken from the part after the last dot.
+            return serializer_factory.from_extension(glob[0].name.rpartition('.')[-1]).load(file)
